@@ -785,13 +785,18 @@ func rootOrder(doc *JV, qs []vh.GQuad) []string {
 }
 
 func hintTok(roots []string) string {
-	if len(roots) == 0 || (len(roots) == 1 && roots[0] == "") {
-		// (a single root needs no order; the empty label alone would be an empty token on the wire)
+	if len(roots) == 0 {
 		return "-"
 	}
 	hs := make([]string, len(roots))
 	for i, r := range roots {
 		hs[i] = hex.EncodeToString([]byte(r))
+		if r == "" {
+			// the empty label (generator twist empty-bnode-label): an empty token cannot travel on the wire.
+			// A single root needs the hint as well: it says WHICH node of a cycle of once-referenced blank
+			// nodes the second pass of ExportResources picked.
+			hs[i] = "_"
+		}
 	}
 	return strings.Join(hs, ";")
 }
